@@ -31,8 +31,10 @@ int main(int argc, char** argv) {
         std::string err;
         // alignment patterns: all buffers 64-byte aligned; every buffer at a different odd multiple of 8; sources aligned and
         // outputs / scratch not; the converse (a code path keyed to the alignment of one argument can touch another)
-        for (int al = 0; al < 4 && err.empty(); ++al) {
+        // patterns 4 and 5: all operands packed back to back in one block, ascending / descending (disjoint but touching buffers)
+        for (int al = 0; al < 6 && err.empty(); ++al) {
           ExecOpts eo; eo.prefill = 1; eo.protect_inputs = true;  // pure sources are read-only mappings during the call
+          if (al >= 4) eo.adjacent = al - 3;
           for (int i = 0; i < 12 && i < (int)c.bufs.size(); ++i) { bool src = c.bufs[i].role == R_IN; if (al == 1 || (al == 2 && !src) || (al == 3 && src)) eo.off[i] = 8 * (2 * (i % 4) + 1); }
           execute(c, eo, r);
           err = judge_model(c, r, false, true);
@@ -60,8 +62,9 @@ int main(int argc, char** argv) {
       ctx.begin_case(c.id);
       uint64_t h0 = ki.table ? fnv(ki.table, ki.table_bytes) : 0;
       std::string err;
-      for (int al = 0; al < 4 && err.empty(); ++al) {
+      for (int al = 0; al < 6 && err.empty(); ++al) {
         ExecOpts eo; eo.prefill = 1; eo.protect_inputs = true;
+        if (al >= 4) eo.adjacent = al - 3;
         for (int i = 0; i < 12 && i < (int)c.bufs.size(); ++i) { bool src = c.bufs[i].role == R_IN; if (al == 1 || (al == 2 && !src) || (al == 3 && src)) eo.off[i] = 8 * (2 * (i % 4) + 1); }
         execute(c, eo, r);
         err = judge_model(c, r, false, true);
